@@ -66,7 +66,17 @@ func (d *Decoder) ReadPointerFlag() (byte, error) {
 	if err != nil {
 		return 0, err
 	}
+	// an optional / two-way discriminator is exactly 0 or 1
+	if firstByte > 1 {
+		return 0, fmt.Errorf("invalid discriminator %d", firstByte)
+	}
 	return firstByte, nil
+}
+
+// ReadBool reads a boolean: exactly the byte 0 or 1.
+func (d *Decoder) ReadBool() (bool, error) {
+	b, err := d.ReadPointerFlag()
+	return b == 1, err
 }
 
 func (d *Decoder) ReadLegnthFlag() (byte, error) {
